@@ -23,6 +23,8 @@ THEOREMS = [
     "SC.rows_after_compaction", "SC.compaction_commit_exact", "SC.compaction_fresh_exact",
     "SC.sortKeys_perm", "SC.scan?_perm", "SC.compaction_rows_perm",
     "SC.applyOps_dels_other", "SC.compaction_empty_commit_exact",
+    # the table lock is one lock per table id: compaction / DELETE / DROP of a table exclude each other
+    "SC.lockinv_step", "SC.lockinv_reachable", "SC.table_lock_exclusive",
     # the bundle: insert + delete + compaction on any number of tables, only FreshSnapshot assumed
     "SC.final_state_exact",
     # the two defects of the original code (fixed in /repo f6c3dfb, a61a0a6): regression inputs
